@@ -53,7 +53,7 @@ def main():
                 alarms = []
                 for p in props:
                     env = dict(os.environ, GOCV_REPO=wt, GOCV_OUT=out, GOFLAGS="-mod=mod", GOPROXY="off")
-                    r = run([os.path.join(VERIF, "bin", "gocv"), "check", p], env=env, cwd=VERIF)
+                    r = run([os.environ.get("GOCV_BIN", os.path.join(VERIF, "bin", "gocv")), "check", p], env=env, cwd=VERIF)
                     viol = [l for l in r.stdout.splitlines() if l.startswith("VIOLATION")]
                     if r.returncode != 0 or viol:
                         alarms.append("%s exit %d: %s" % (p, r.returncode, (viol or r.stdout.splitlines()[-1:])[0][:220]))
@@ -65,7 +65,7 @@ def main():
             for p in props:
                 env = dict(os.environ, GOCV_REPO=wt, GOCV_OUT=out, GOFLAGS="-mod=mod", GOPROXY="off")
                 t0 = time.time()
-                r = run([os.path.join(VERIF, "bin", "gocv"), "check", p], env=env, cwd=VERIF)
+                r = run([os.environ.get("GOCV_BIN", os.path.join(VERIF, "bin", "gocv")), "check", p], env=env, cwd=VERIF)
                 viol = [l for l in r.stdout.splitlines() if l.startswith("VIOLATION")]
                 exp = meta.get("expect_obligation", "")
                 hit = [l for l in viol if exp in l]
